@@ -2,7 +2,7 @@
 
 Spaces (DESIGN §5 C01): (A) all 65,536 class/ID pairs x short lengths x fills x 4 msgmodes x 2
 bitfield views; (B) every named class/ID x every payload length 0..nominal+16 x 4 fills x its
-modes + SETPOLL x 2 views; (C) extreme lengths up to 65,535; (D) consecutive pairs of frames with identical class/ID/length/checksum but different payloads; (E) one frame per routed definition x every single accessor and every ordered pair of the 8 accessors (length, payload, msg_cls, msg_id, identity, msgmode, str, repr) used before the first serialize().  Oracle on every accepted frame:
+modes + SETPOLL x 2 views; (C) extreme lengths up to 65,535; (D) consecutive pairs of frames with identical class/ID/length/checksum but different payloads; (F) for every named class/ID (and two unknown ones): payloads that are themselves complete valid frames of the same / another class/ID, with a byte added before / after or removed, x 4 modes x 2 views; (E) one frame per routed definition x every single accessor and every ordered pair of the 8 accessors (length, payload, msg_cls, msg_id, identity, msgmode, str, repr) used before the first serialize().  Oracle on every accepted frame:
 serialize() == input; msg_cls / msg_id / length / payload equal the frame's fields;
 eval(repr(msg)) serializes to the same bytes.
 """
@@ -120,6 +120,19 @@ def eval_block(block, acc):
                     for key, detail in out:
                         acc.violation(key, {"clsid": cid.hex(), "payload": pl.hex(), "mode": mode, "pbf": pbf, "order": list(order)}, detail)
         return
+    elif kind == "nested":
+        # payloads that are themselves complete, valid frames (of the same and of another class/ID), or that
+        # begin / end with frame-like bytes: the outer frame is what must come back
+        it = []
+        cids = [c for c in FS.known_clsids()][block[1]::block[2]] + ([b"\x99\x01", b"\x00\x00"] if block[1] == 0 else [])
+        for cid in cids:
+            for inner_pl in (b"", b"\x06\x01", bytes(range(1, 9))):
+                same = ref.frame(cid[0], cid[1], inner_pl)
+                other = ref.frame(0x05, 0x01, inner_pl)
+                for pl in (same, other, same + b"\x00", b"\x00" + same, same[:-1], same[:6]):
+                    for mode in (0, 1, 2, 3):
+                        for pbf in (1, 0):
+                            it.append((cid, pl, mode, pbf))
     elif kind == "collide":
         # pairs of different frames with the same class, ID, length and Fletcher checksum (+1,-2,+1 on three
         # consecutive payload bytes), parsed one after the other in the same process
@@ -168,6 +181,7 @@ def run_tier(tier, t0):
     blocks += [("B", cid.hex(), q) for cid in FS.known_clsids()]
     blocks.append(("C",))
     blocks += [("orders", i, 16) for i in range(16)]
+    blocks += [("nested", i, 8) for i in range(8)]
     blocks += [("collide", c) for c in ("0501", "0107", "0601", "9901", "0a04", "1340")]
     acc = engine.sweep(blocks, eval_block)
     engine.finish(
@@ -175,7 +189,7 @@ def run_tier(tier, t0):
         rule=(
             f"(A) all 65,536 class/ID pairs x lengths {lengths} x fills {fills} x msgmode(4) x parsebitfield(2); (B) every named class/ID x "
             + ("lengths {0,1,2,nominal-1,nominal,nominal+1,nominal+16} x 3 fills (incrementing, ff, trailing NULs)" if q else "every length 0..nominal+16 x 6 fills")
-            + " x its modes + SETPOLL x 2 views (count-amplifying pairs at boundary lengths only, listed); (C) extreme lengths up to 65,535; (D) consecutive pairs of frames with identical class/ID/length/checksum but different payloads; (E) one frame per routed definition x every single accessor and every ordered pair of the 8 accessors (length, payload, msg_cls, msg_id, identity, msgmode, str, repr) used before the first serialize(). "
+            + " x its modes + SETPOLL x 2 views (count-amplifying pairs at boundary lengths only, listed); (C) extreme lengths up to 65,535; (D) consecutive pairs of frames with identical class/ID/length/checksum but different payloads; (F) for every named class/ID (and two unknown ones): payloads that are themselves complete valid frames of the same / another class/ID, with a byte added before / after or removed, x 4 modes x 2 views; (E) one frame per routed definition x every single accessor and every ordered pair of the 8 accessors (length, payload, msg_cls, msg_id, identity, msgmode, str, repr) used before the first serialize(). "
             "states = distinct (class/ID, mode, verdict) of space B; distinct_nontrivial = distinct (class, mode, length class, verdict)"
         ),
         assumptions=["frames are built by the reference framing (independent Fletcher)", "a frame the parser refuses with a UBX error is outside C01 (C08 judges it)"],
